@@ -152,8 +152,11 @@ def fitfail_specs(rng, count):
         gids = [rng.choice([None, None, None, 1, 2]) for _ in range(n)]
         fitgeom = geoms[(t // 2) % 4]
         s = A.mk_spec(rng, kinds, gids, rng.choice(['none', 'none', 'table', 'corr']), rng.random() < 0.6,
-                      rng.random() < 0.5, far_prob=0.1, fitgeom=fitgeom, minobj=rng.choice([0, 1, 1, 2, 3, None]),
-                      allow_low_minobj=True)
+                      rng.random() < 0.5, far_prob=0.0, ref_field='near', fitgeom=fitgeom,
+                      minobj=rng.choice([0, 1, 1, 2, 3, None]), allow_low_minobj=True)
+        # (all catalogs in ONE sky field: a 1-2 row catalog appended to a reference 4 degrees away would make the
+        # reference footprint a degenerate sliver whose overlap areas are decided by spherical_geometry's handling
+        # of degenerate polygons, which the model's zero-overlap oracle does not describe)
         im = s['images'][pos]
         if t % 2 == 0:
             im['kind'] = 'coin'
